@@ -164,11 +164,13 @@ class World:
         if shared is not None:
             keys = shared[0]          # the very same array objects an earlier table was built from
         kw = {}
+        if op.get("mod_np") and op.get("mod") is not None:
+            op = dict(op)   # (the modulus handed over as a numpy integer)
         if op.get("keys_as_list"):
             keys = list(op["keys"])
             kw["key_dtype"] = np.dtype(op["key_dtype"]).type
         if op.get("mod") is not None:
-            kw["mod"] = op["mod"]
+            kw["mod"] = np.int64(op["mod"]) if op.get("mod_np") else op["mod"]
         val = op.get("values")
         if op["cls"] == "HashSet":
             st, t = self._call(lambda: HashSet(keys, **kw))
@@ -183,6 +185,8 @@ class World:
                 if shared is not None and shared[1] is not None:
                     v = shared[1]
                     self.count("tables_built_from_shared_input_arrays")
+                elif op.get("values_as_list"):
+                    v = list(val[2])
             if op.get("value_dtype"):
                 kw["value_dtype"] = np.dtype(op["value_dtype"]).type
             if op["cls"] == "Counter" and val[0] == "scalar" and v == 0 and op.get("default_init"):
